@@ -89,8 +89,11 @@ def defaults(run, model, rule="C15.defaults"):
 
 
 def _eval_env(e, debug, var):
-    """Concrete evaluation of the SLOW expression for one abstract environment; raises AnalysisError if unknown."""
-    val = {"unset": None, "empty": "", "nonempty": "1"}[var]
+    """Concrete evaluation of the SLOW expression for one abstract environment; raises AnalysisError if unknown.
+
+    ``var`` is 'unset', 'empty' or ('value', <string>) for a particular non-empty value.
+    """
+    val = None if var == "unset" else ("" if var == "empty" else var[1])
     if isinstance(e, ast.Constant):
         return e.value
     if isinstance(e, ast.Name):
@@ -110,6 +113,10 @@ def _eval_env(e, debug, var):
         return not _eval_env(e.operand, debug, var)
     if isinstance(e, ast.Compare) and len(e.ops) == 1:
         op = e.ops[0]
+        if isinstance(op, (ast.In, ast.NotIn)) and isinstance(e.comparators[0], (ast.Tuple, ast.List, ast.Set)) and all(isinstance(x, ast.Constant) for x in e.comparators[0].elts):
+            l = _eval_env(e.left, debug, var)
+            r = l in [x.value for x in e.comparators[0].elts]
+            return r if isinstance(op, ast.In) else not r
         if isinstance(op, (ast.In, ast.NotIn)) and src_of(e.comparators[0]) == "os.environ" and isinstance(e.left, ast.Constant):
             if e.left.value != "ICONTRACT_SLOW":
                 raise AnalysisError("SLOW reads the environment variable %r" % e.left.value)
@@ -129,6 +136,11 @@ def _eval_env(e, debug, var):
         if isinstance(op, ast.GtE):
             return l >= r
         raise AnalysisError("SLOW uses comparison %s" % src_of(e))
+    if isinstance(e, ast.Call) and isinstance(e.func, ast.Attribute) and e.func.attr in ("strip", "lower", "upper", "lstrip", "rstrip", "casefold") and not e.args and not e.keywords:
+        base = _eval_env(e.func.value, debug, var)
+        if not isinstance(base, str):
+            raise AnalysisError("SLOW applies .%s() to a non-string" % e.func.attr)
+        return getattr(base, e.func.attr)()
     if isinstance(e, ast.Call):
         f = src_of(e.func)
         if f in ("os.environ.get", "os.getenv"):
@@ -161,11 +173,19 @@ def slow(run, model, rule="C15.slow"):
         run.violation(rule, "_globals.SLOW", "expected one module-level definition of SLOW, found %d" % len(vals), "icontract/_globals.py")
         return
     e = vals[0]
+    # representatives of "a non-empty string": the usual ones plus every string the expression itself mentions
+    nonempty = ["1", "yes", "0", "false", "False", "no", "off", " ", "x"]
+    for sub in ast.walk(e):
+        if isinstance(sub, ast.Constant) and isinstance(sub.value, str) and sub.value not in ("", "ICONTRACT_SLOW"):
+            for v in (sub.value, sub.value.upper(), " " + sub.value):
+                if v not in nonempty:
+                    nonempty.append(v)
     for debug in (True, False):
-        for var in ("unset", "empty", "nonempty"):
+        for var in ["unset", "empty"] + [("value", v) for v in nonempty]:
             got = bool(_eval_env(e, debug, var))
-            want = debug and var == "nonempty"
-            run.check(got == want, rule, "_globals.SLOW[__debug__=%s, ICONTRACT_SLOW %s]" % (debug, var), "SLOW is %s" % want, "SLOW is %s in this configuration, expected %s" % (got, want), "icontract/_globals.py:%d" % e.lineno, None, "SLOW = " + src_of(e))
+            want = debug and var not in ("unset", "empty")
+            label = var if isinstance(var, str) else "= %r" % var[1]
+            run.check(got == want, rule, "_globals.SLOW[__debug__=%s, ICONTRACT_SLOW %s]" % (debug, label), "SLOW is %s" % want, "SLOW is %s in this configuration, expected %s (any non-empty value switches the slow contracts on in a non-optimised interpreter, nothing else does)" % (got, want), "icontract/_globals.py:%d" % e.lineno, None, "SLOW = " + src_of(e))
     # re-exported unchanged
     init = model.modules["__init__"].assigns.get("SLOW", [])
     run.check(len(init) == 1 and src_of(init[0]) == "icontract._globals.SLOW", rule, "__init__.SLOW", "icontract.SLOW is the very value of _globals.SLOW", "icontract.SLOW is defined as %s" % [src_of(x) for x in init], "icontract/__init__.py")
